@@ -551,3 +551,76 @@ func manyHeadsFamily() []scenario {
 	}
 	return out
 }
+
+// laggingRootFamily: a replica whose in-memory root lags behind (is an older snapshot than) the
+// root of the replica it talks to, and then writes. Two replicas write concurrent snapshots a1, b1;
+// `merger` receives the other snapshot (rebuild from storage at the common snapshot), merges, and
+// writes snapshot s2, so its root is s2; the other snapshot author receives b1/m/s2 either in ONE
+// response batch (its root was its own snapshot: the batch cites a snapshot below it, the rebuild
+// leaves the root on the common snapshot and does not reduce) or one by one; then it writes an edit
+// — which cites the old snapshot while its parent is s2 — optionally two chained edits, and an
+// optional third replica that followed everything one by one must get them too. Aimed at: a change
+// citing a snapshot BELOW the receiver's in-memory root (snapshotNotInTree → rebuild from storage),
+// canAttachOrRemove's snapshot requirement, root after rebuild vs. after reduce.
+func laggingRootFamily() []scenario {
+	var out []scenario
+	for variant := 0; variant < 16; variant++ {
+		oneBatch, chained, third, plainBetween := variant&1 == 1, variant&2 != 0, variant&4 != 0, variant&8 != 0
+		n := 2
+		if third {
+			n = 3
+		}
+		name := fmt.Sprintf("lagging root: oneBatch=%v chained=%v third=%v plainBetween=%v", oneBatch, chained, third, plainBetween)
+		out = append(out, scenario{name, n, 0, func(w *world) {
+			w.deep = true
+			w.stepAdd(0, false)
+			w.deliverAll()
+			// concurrent snapshots
+			w.stepAdd(0, true) // a1
+			w.stepAdd(1, true) // b1
+			// replica 1 (the merger) learns a1; what it sends to 0 is lost for now
+			for m := w.first(kHU, 0, 1); m != nil && !w.failed; m = w.first(kHU, 0, 1) {
+				w.stepDeliver(m)
+			}
+			dropTo0 := func() {
+				for _, m := range append([]*message(nil), w.net...) {
+					if m.to == 0 && !w.failed {
+						w.stepDrop(m)
+					}
+				}
+			}
+			if oneBatch {
+				dropTo0()
+			}
+			if plainBetween {
+				w.stepAdd(1, false)
+			}
+			w.stepAdd(1, false) // the merge m
+			w.stepAdd(1, true)  // s2
+			if oneBatch {
+				dropTo0()
+				if third {
+					w.settle(0)
+				}
+				// replica 0 gets b1, m, s2 in one response
+				if !w.failed {
+					w.exchange(0, 1)
+				}
+				w.dropAll()
+			} else {
+				w.deliverAll()
+			}
+			if w.failed {
+				return
+			}
+			// the (possibly lagging) replica writes
+			w.stepAdd(0, false)
+			if chained {
+				w.stepAdd(0, false)
+			}
+			// head updates first (the usual way), then the anti-entropy phase repairs what is left
+			w.deliverAll()
+		}})
+	}
+	return out
+}
